@@ -9,6 +9,7 @@ Stdlib only.  See DESIGN.md section 2.
 """
 import _thread
 import gc
+import math
 import sys
 import threading as _rt
 import time as _rtime
@@ -383,6 +384,10 @@ class Scheduler:
         me.state = "blocked"
         me.pred = pred
         me.deadline = None if timeout is None else self.now + max(0.0, timeout)
+        if timeout is not None and timeout > 0 and me.deadline <= self.now:
+            # a positive wait always lets the clock advance (float resolution at the epoch is ~2e-7 s;
+            # code that re-arms with `timeout - elapsed` would otherwise spin at a frozen clock)
+            me.deadline = math.nextafter(self.now, math.inf)
         me.why = why
         try:
             self._handoff(me)
